@@ -48,8 +48,9 @@ Inductive ev :=
 | EHit (a : Z) (hr : option (Z * Z))             (* logicblock_<n>_hit(count.. | step) *)
 | EComplete                                      (* logicblock_<n>_complete *)
 | ETimeout                                       (* <n>_timeout *)
-| EUpdatedAny (en : bool).   (* never produced by the model: an observed update event whose value argument is
-                                not compared (accrual, two steps advanced by one shared event: see NOTES.md) *)
+| EUpdatedAny (en : bool).   (* never produced by the model: an observed accrual update event whose value argument
+                                is not compared, used only on dispatches where the recorded defect
+                                "updated-value-aliased" is observed (see NOTES.md) *)
 
 (* ---- setters ---------------------------------------------------------------------------- *)
 (* (written with a match so that unfolding them does not copy the state term) *)
